@@ -16,7 +16,7 @@ tvars == <<hvars, l>>
 Ev == Trace[l]
 
 TraceInit ==
-    /\ l = 1 /\ off = <<0, 0>> /\ rot = 0 /\ lay = [rowR |-> TRUE, sstRev |-> FALSE, perm |-> <<>>, pad |-> "none", xml |-> "std"]
+    /\ l = 1 /\ off = <<0, 0>> /\ rot = 0 /\ lay = [rowR |-> TRUE, sstRev |-> FALSE, perm |-> <<>>, pad |-> "none", xml |-> "std", valsp |-> "none"]
     /\ cur = 1 /\ nv = 0 /\ items = << <<>> >> /\ mseq = << <<>> >> /\ grid = << {} >>
     /\ rd = "reader" /\ held = << {} >> /\ hist = <<>>
 
